@@ -2,6 +2,9 @@
 package c01
 
 import (
+	"fmt"
+	"os"
+	"strings"
 	"testing"
 
 	"verifsim/harness/common"
@@ -21,5 +24,11 @@ func run(t *testing.T, tape *simrt.Tape) *common.Outcome {
 	case 2:
 		runSwarm(t, tape, g, o)
 	}
+	if f := traceFilter; f != "" && len(o.Trace) > 0 && strings.Contains(strings.Join(o.Trace, "\n"), f) {
+		fmt.Fprintln(os.Stderr, strings.Join(o.Trace, "\n")+"\n")
+	}
 	return o
 }
+
+// C01_TRACE=<substring> prints the decoded trace of every run that contains the substring (debugging aid).
+var traceFilter = os.Getenv("C01_TRACE")
